@@ -1166,6 +1166,10 @@ class Machine:
             if isinstance(a, VTuple) and isinstance(b, VTuple):
                 return VTuple(a.items + b.items)
             # user-defined __add__
+            for h in getattr(self.world, "binop_hooks", []):
+                r = h(self, op, a, b)
+                if r is not None:
+                    return r
             r = self.call_dunder(a, "__add__", [b])
             if r is not None:
                 return r
@@ -1519,6 +1523,10 @@ class Machine:
             raise EngineError("slice step")
         lo = self.eval(sl.lower) if sl.lower is not None else None
         hi = self.eval(sl.upper) if sl.upper is not None else None
+        if isinstance(obj, VOpt):
+            if not self.spec and not self.ctx.branch(z3.Not(obj.sort.is_none(obj.term))):
+                raise RaiseSig(VExc("TypeError"))
+            obj = obj.sort.elem.wrap(obj.sort.val(obj.term))
         if isinstance(obj, VTuple):
             def conc(x: V | None) -> int | None:
                 if x is None:
